@@ -17,9 +17,62 @@ TRIVIAL_SIGS = ('none',)
 CASE_TIMEOUT = 10.0
 
 def cases(tier, rng):
-    return parseprops.base_cases(tier, rng)
+    for c in parseprops.base_cases(tier, rng):
+        yield c
+    # the input read PIECEWISE through the public parser classes on one shared token reader: the nodes up to a stop token
+    # (LatexGeneralNodesParser with a stop_token_condition, the blanks before the stop token included in the content or left in
+    # the stream — both documented settings), then the next node (LatexSingleNodeParser), and so on: the nodes obtained are
+    # the top-level nodes of the input and tile it (oracle only)
+    PW = ['a', 'b ', ' ', '  ', '\n', '&', '&', ';', '{y}', '\\textbf{t}', '$x$', '%c\n', '\\alpha', '~', '\\\\']
+    for _ in range(1500 if tier == 'quick' else 30000):
+        s = ''.join(rng.choice(PW) for _ in range(rng.randint(1, 8)))
+        yield {'tol': False, 'ctx': 'default', 's': s, 'piecewise': [rng.choice(['&', ';', '~']), rng.random() < 0.5]}
 
-to_line = parsecase.to_line
+def to_line(c):
+    if c.get('piecewise'):
+        return None
+    return parsecase.to_line(c)
+
+def run_piecewise(c):
+    from pylatexenc.latexwalker import LatexWalker, LatexWalkerParseError
+    from pylatexenc.latexnodes.parsers import LatexGeneralNodesParser, LatexSingleNodeParser
+    s = c['s']
+    stop, incl = c['piecewise']
+    def is_stop(tok):
+        if tok.tok == 'specials':
+            return tok.arg.specials_chars == stop
+        return tok.tok == 'char' and tok.arg == stop
+    lw = LatexWalker(s, tolerant_parsing=False)
+    tr = lw.make_token_reader()
+    upto = LatexGeneralNodesParser(stop_token_condition=is_stop, include_stop_token_pre_space_chars=incl, require_stop_condition_met=False)
+    single = LatexSingleNodeParser()
+    nodes = []
+    try:
+        for _ in range(len(s) + 2):
+            cell, _ = lw.parse_content(upto, token_reader=tr)
+            cell = [] if cell is None else list(cell)
+            nxt, _ = lw.parse_content(single, token_reader=tr)
+            nxt = [] if nxt is None else list(nxt)
+            nodes += cell + nxt
+            if not cell and not nxt:
+                break
+    except LatexWalkerParseError:
+        return {'out': 'ERR', 'fail': None, 'sig': 'piecewise:err'}
+    fail = None
+    pos = 0
+    for n in nodes:
+        if n is None or n.pos != pos:
+            fail = {'kind': 'gap-or-overlap', 'detail': 'read piecewise (stop token %r, include_stop_token_pre_space_chars=%r) %r: node %s starts at %r, previous ended at %d'
+                                                   % (stop, incl, s, type(n).__name__, getattr(n, 'pos', None), pos)}
+            break
+        pos = n.pos_end
+    if not fail and pos != len(s):
+        fail = {'kind': 'gap-or-overlap', 'detail': 'read piecewise (stop token %r, include_stop_token_pre_space_chars=%r) %r: nodes end at %d, input has %d characters' % (stop, incl, s, pos, len(s))}
+    if not fail:
+        r = check_cover(s, nodes, 0, len(s), True, '')
+        if r:
+            fail = {'kind': 'cover', 'detail': 'read piecewise: ' + r}
+    return {'out': dump.dump_result(nodes) if hasattr(dump, 'dump_result') else None, 'fail': fail, 'sig': 'piecewise:%s:%d' % (stop, incl)}
 
 def check_cover(s, nodes, lo, hi, strict, path):
     """children tile-or-nest check; returns failure text or None"""
@@ -48,6 +101,8 @@ def check_cover(s, nodes, lo, hi, strict, path):
     return None
 
 def run_impl(c):
+    if c.get('piecewise'):
+        return run_piecewise(c)
     w, kind, p = parsecase.parse(c)
     out = parsecase.show_result(kind, p)
     fail = None
